@@ -184,8 +184,15 @@ fn c18_snapshot_under_interfering_writes() {
     drop(guard);
 }
 
-/// try_update never reaches the blocking lock() either, whatever the lock's state.
+/// The poison flag of the writer lock, as far as code asks for it explicitly: arbitrary (a writer may have died).
+fn any_poison_flag<T>(_m: &Mutex<T>) -> bool {
+    kani::any()
+}
+
+/// try_update never reaches the blocking lock() either, whatever the lock's state (held or free; poison flag,
+/// where the code consults it through is_poisoned(), arbitrary).
 #[kani::proof]
+#[kani::stub(std::sync::Mutex::is_poisoned, any_poison_flag)]
 #[kani::stub(std::hint::spin_loop, spin_hint_is_a_no_op)]
 #[kani::stub(std::thread::yield_now, spin_hint_is_a_no_op)]
 #[kani::unwind(2)]
